@@ -126,4 +126,62 @@ theorem ek_readVecAt (i : Nat) : ErrKeepL (readVecAt i) := errKeepL_onLeaf clean
 theorem ek_readScalarAt (i : Nat) : ErrKeepL (readScalarAt i) := errKeepL_onLeaf clean_liftScalar _
 theorem ek_readMatAt (i : Nat) : ErrKeepL (readMatAt i) := errKeepL_onLeaf clean_liftMat _
 
+/-! #### CircuitBootstrappingKey / BDDKey -/
+
+theorem pres_readU8 {I : St → Prop} : Pres I (readU8 : Rd St Nat) := by
+  unfold Pres; intro s bs h; unfold readU8; rw [readU_state]; exact h
+theorem nopanic_readU8 {I : St → Prop} : NoPanicOn I (readU8 : Rd St Nat) := by
+  unfold NoPanicOn; intro s bs _; unfold readU8; exact readU_nopanic 1 s bs
+
+theorem pres_rAtkLoop (ca : Cur) (na k : Nat) : Pres (Keep L M) (rAtkLoop ca na k) := by
+  induction k with
+  | zero => exact pres_pure ()
+  | succ k ih =>
+    unfold rAtkLoop
+    refine pres_bind pres_readU64 (fun gal => pres_bind pres_getS (fun s => ?_))
+    cases findAtk s (ca.f + 1) na gal with
+    | none => exact pres_failWith _
+    | some j => exact pres_bind (pres_rGLWEAutomorphismKey _) (fun _ => ih)
+
+theorem np_rAtkLoop (ca : Cur) (na k : Nat) : NoPanicOn (Keep L M) (rAtkLoop ca na k) := by
+  induction k with
+  | zero => exact nopanic_pure ()
+  | succ k ih =>
+    unfold rAtkLoop
+    refine nopanic_bind pres_readU64 nopanic_readU64 (fun gal => nopanic_bind pres_getS nopanic_getS (fun s => ?_))
+    cases findAtk s (ca.f + 1) na gal with
+    | none => exact nopanic_failWith _
+    | some j => exact nopanic_bind (pres_rGLWEAutomorphismKey _) (np_rGLWEAutomorphismKey _) (fun _ => ih)
+
+theorem pres_rCircuitBootstrappingKey (c : Cur) : Pres (Keep L M) (rCircuitBootstrappingKey c) := by
+  unfold rCircuitBootstrappingKey
+  refine pres_bind (pres_rBlindRotationKey _) (fun _ => pres_bind (pres_getF _) (fun nb => pres_bind pres_readU64 (fun n =>
+    pres_bind (pres_getF _) (fun na => pres_ite (pres_failWith _) ?_))))
+  exact pres_bind (pres_rAtkLoop _ _ _) (fun _ => pres_rKeys (fun c => pres_rGGLWE c) _)
+
+theorem np_rCircuitBootstrappingKey (c : Cur) : NoPanicOn (Keep L M) (rCircuitBootstrappingKey c) := by
+  unfold rCircuitBootstrappingKey
+  refine nopanic_bind (pres_rBlindRotationKey _) (np_rBlindRotationKey _) (fun _ =>
+    nopanic_bind (pres_getF _) (nopanic_getF _) (fun nb => nopanic_bind pres_readU64 nopanic_readU64 (fun n =>
+    nopanic_bind (pres_getF _) (nopanic_getF _) (fun na => nopanic_ite (nopanic_failWith _) ?_))))
+  exact nopanic_bind (pres_rAtkLoop _ _ _) (np_rAtkLoop _ _ _)
+    (fun _ => nopanic_rKeys (fun c => pres_rGGLWE c) (fun c => np_rGGLWE c) _)
+
+theorem pres_rBDDKey (c : Cur) : Pres (Keep L M) (rBDDKey c) := by
+  unfold rBDDKey
+  refine pres_bind (pres_rCircuitBootstrappingKey _) (fun _ => pres_bind (pres_getF _) (fun nb => pres_bind (pres_getF _) (fun na =>
+    pres_bind (pres_getF _) (fun nt => pres_bind pres_readU8 (fun tag => pres_bind (pres_getF _) (fun has => ?_))))))
+  refine pres_ite (pres_ite (pres_failWith _) (pres_rGLWESwitchingKey _)) (pres_ite (pres_ite (pres_failWith _) ?_) (pres_failWith _))
+  exact pres_bind (pres_rGLWESwitchingKey _) (fun _ => pres_rGLWESwitchingKey _)
+
+theorem np_rBDDKey (c : Cur) : NoPanicOn (Keep L M) (rBDDKey c) := by
+  unfold rBDDKey
+  refine nopanic_bind (pres_rCircuitBootstrappingKey _) (np_rCircuitBootstrappingKey _) (fun _ =>
+    nopanic_bind (pres_getF _) (nopanic_getF _) (fun nb => nopanic_bind (pres_getF _) (nopanic_getF _) (fun na =>
+    nopanic_bind (pres_getF _) (nopanic_getF _) (fun nt => nopanic_bind pres_readU8 nopanic_readU8 (fun tag =>
+    nopanic_bind (pres_getF _) (nopanic_getF _) (fun has => ?_))))))
+  refine nopanic_ite (nopanic_ite (nopanic_failWith _) (np_rGLWESwitchingKey _))
+    (nopanic_ite (nopanic_ite (nopanic_failWith _) ?_) (nopanic_failWith _))
+  exact nopanic_bind (pres_rGLWESwitchingKey _) (np_rGLWESwitchingKey _) (fun _ => np_rGLWESwitchingKey _)
+
 end Ser
